@@ -245,6 +245,20 @@ func checkC11(c *Ctx) Meta {
 	c.Rule("C11-LOAD", "in generateInitialIndex, indexing is dominated by: name pattern match, argument parse, wallet ownership and ordinal equality, duplicate miss, successful NewWorkSpace", 6)
 	c.Rule("C11-COMPLETE", "the only deletion of plot data outside the delete path is the removal of map A at completion, and it happens only when both plotting passes returned nil (a stop request or an error keeps map A)", 2)
 	checkRemoveAfterPasses(c, "C11-COMPLETE")
+	c.Rule("C11-ERR", "a pass that did not write its table does not return nil: no storage error and no stop seen on the plotting path is dropped (the C10 error-flow rule as the premise of 'map A is removed only when both passes completed')", 14)
+	{
+		pre := c.Fn("poc/engine/massdb/massdb.v1", "(*MassDBV1).prePlotWork")
+		plot := c.Fn("poc/engine/massdb/massdb.v1", "(*MassDBV1).plotWork")
+		upd := c.Fn("poc/engine/massdb/massdb.v1", "(*HashMap).UpdateCheckpoint")
+		var scope []*ssa.Function
+		for _, f := range []*ssa.Function{pre, plot, upd} {
+			if f != nil {
+				scope = append(scope, bodyFns(f, nil)...)
+			}
+		}
+		runErrflow(c, errflowCfg{rule: "C11-ERR", scope: scope, classK: plotErrClass,
+			strict: func(fn *ssa.Function, call *ssa.Call) bool { return true }})
+	}
 	c.Rule("C11-INDEX", "the state gate of remove/delete reads indexes that agree with the space's state: every transition of the keeper deletes the space from the index of the state it leaves, sets it in the index of the state it enters and stores that state (the C09 transition extraction, here as the premise of the gate)", 14)
 	c09TransRule = "C11-INDEX"
 	checkTransitions(c, pkgCapacity, "capacity")
@@ -393,7 +407,9 @@ func checkC11(c *Ctx) Meta {
 		// a. name pattern
 		var t []boolTest
 		for _, m := range callsIn(f0, "(*regexp.Regexp).MatchString") {
-			t = append(t, boolTestsOf(m.Parent(), m)...)
+			th := boolTestsOf(m.Parent(), m)
+			t = append(t, th...)
+			t = append(t, liftBoolGate(m.Parent(), th)...)
 		}
 		mustCut("generateInitialIndex:name-pattern", "the file name matches the plot-file pattern", boolEdgeCut(t, true), len(t) > 0)
 		// b. parse
@@ -1055,6 +1071,53 @@ func errResultsOfFn(h *ssa.Function) []int {
 	for i := 0; i < res.Len(); i++ {
 		if isErrorType(res.At(i).Type()) {
 			out = append(out, i)
+		}
+	}
+	return out
+}
+
+// liftBoolGate: tests sit in a helper h the reference tree does not have that reports by a bool result
+// (`args, ok := splitName(…)`): if every return of h that is reachable without passing a true edge of the
+// tests hands back the constant false in some bool result j, then at each call site of h (in the anchored
+// function's body) the tests of result j are the caller's form of the same gate. Returns those tests.
+func liftBoolGate(h *ssa.Function, tests []boolTest) []boolTest {
+	if h == nil || !gNewFuncs[h] || len(tests) == 0 {
+		return nil
+	}
+	rh := reach(h, nil, boolEdgeCut(tests, true), nil)
+	res := h.Signature.Results()
+	var out []boolTest
+	for j := 0; j < res.Len(); j++ {
+		if b, ok := res.At(j).Type().Underlying().(*types.Basic); !ok || b.Info()&types.IsBoolean == 0 {
+			continue
+		}
+		allFalse, passes := true, false
+		for _, ret := range returnsOf(h) {
+			if j >= len(ret.Results) {
+				allFalse = false
+				continue
+			}
+			if !rh(ret) {
+				passes = true
+				continue
+			}
+			k, isK := strip(ret.Results[j]).(*ssa.Const)
+			if !isK || k.Value == nil || k.Value.String() != "false" {
+				// a spilled named result: judge the stored value
+				allFalse = false
+			}
+		}
+		if !allFalse || !passes {
+			continue
+		}
+		for _, site := range sitesOf(h) {
+			cl, isCall := site.(*ssa.Call)
+			if !isCall {
+				continue
+			}
+			if v := resultOf(cl, j); v != nil {
+				out = append(out, boolTestsOf(cl.Parent(), v)...)
+			}
 		}
 	}
 	return out
